@@ -219,6 +219,7 @@ struct MockState {
     effective: Vec<String>,
     written: Vec<u8>,
     empty_read_slice: bool,
+    reads: u64,
 }
 
 /// The scripted I/O object; the harness keeps a second handle to look at its state.
@@ -239,7 +240,16 @@ impl AsyncRead for MockIo {
             Some(Step::Ok(n)) => {
                 let k = n.min(st.inp.len() - st.pos).min(buf.remaining());
                 let pos = st.pos;
-                buf.put_slice(&st.inp[pos..pos + k]);
+                // every other read goes the way TLS / compat adapters do it: the whole unfilled part of the buffer is
+                // initialised first, then only k bytes of it are filled (filled < initialized afterwards)
+                st.reads += 1;
+                if st.reads % 2 == 0 {
+                    let spare = buf.initialize_unfilled();
+                    spare[..k].copy_from_slice(&st.inp[pos..pos + k]);
+                    buf.advance(k);
+                } else {
+                    buf.put_slice(&st.inp[pos..pos + k]);
+                }
                 st.pos += k;
                 st.effective.push(format!("o{}", k));
                 Poll::Ready(Ok(()))
@@ -340,7 +350,7 @@ fn transport_case(out: &mut Out, rng: &mut Rng) {
         });
     }
     let state = std::rc::Rc::new(std::cell::RefCell::new(MockState {
-        inp: inp.clone(), pos: 0, script, effective: vec![], written: vec![], empty_read_slice: false }));
+        inp: inp.clone(), pos: 0, script, effective: vec![], written: vec![], empty_read_slice: false, reads: 0 }));
     let mut t = Box::pin(TokioTransport::new(MockIo(state.clone())));
     let mut flush_violation = false;
     let waker = Waker::noop();
